@@ -592,10 +592,16 @@ def xchg(info, a, b):
     return aff_pair(a, b, b, a)
 
 def movzx(info, a, b):
+    if b.get_size() == a.get_size():
+        # (66 0F B7 /r: both operands are words)
+        return [ExprAff(a, b)]
     return [ExprAff(a, ExprCompose([(ExprInt32(0), b.get_size(), a.get_size()),
                                     (b, 0, b.get_size())]))]
 
 def movsx(info, a, b):
+    if b.get_size() == a.get_size():
+        # (66 0F BF /r: both operands are words)
+        return [ExprAff(a, b)]
     return [ExprAff(a, ExprCompose([(b, 0, b.get_size()),
                                     (ExprCond(get_op_msb(b),
                                               ExprInt32(0xffffffff),
@@ -1397,6 +1403,11 @@ def enter(info, a,b):
 
 def jmp(info, a):
     e= []
+    if isinstance(a, ExprInt) and a.get_size() == 8:
+        # short jump: the displacement is sign extended to the operand size
+        s = {x86_afs.u16:16}.get(info.opmode, 32)
+        d = int(a.arg)
+        a = ExprInt(tab_uintsize[s](d - ((d & 0x80) << 1)))
     e.append(set_eip(a))
     return e
 
@@ -1411,6 +1422,9 @@ def jmpf(info, a, seg = None):
                              ExprInt_from(a.arg, a.get_size()//8)),
                       size=16)
     e.append(set_eip(a))
+    if isinstance(seg, ExprInt):
+        # (the selector of the direct form is decoded with the operand size)
+        seg = ExprInt16(int(seg.arg) & 0xFFFF)
     e.append(ExprAff(cs, seg))
     return e
 
@@ -2382,15 +2396,16 @@ def frndint(info):
 def fnstsw(info, a=eax):
     # TODO: emulation is not valid
     dst = a
-    return [ExprAff(dst, ExprCompose([(ExprInt32(0), 0, 8),
-                                      (float_c0,           8, 9),
-                                      (float_c1,           9, 10),
-                                      (float_c2,           10, 11),
-                                      (float_stack_ptr,    11, 14),
-                                      (float_c3,           14, 15),
-                                      (ExprInt32(0), 15, 16),
-                                      (dst[16:dst.get_size()], 16, dst.get_size())
-                                      ]))]
+    sw = [(ExprInt32(0), 0, 8),
+          (float_c0,           8, 9),
+          (float_c1,           9, 10),
+          (float_c2,           10, 11),
+          (float_stack_ptr,    11, 14),
+          (float_c3,           14, 15),
+          (ExprInt32(0), 15, 16)]
+    if dst.get_size() > 16:
+        sw.append((dst[16:dst.get_size()], 16, dst.get_size()))
+    return [ExprAff(dst, ExprCompose(sw))]
 
 def fnstcw(info, a):
     e = []
@@ -2562,12 +2577,12 @@ def ins(info):
 
 def sidt(info, a):
     e = []
-    if not isinstance(a, ExprMem) or a.size!=32:
-      raise ValueError('not exprmem 32bit instance!!')
+    if not isinstance(a, ExprMem):
+      raise ValueError('not exprmem instance!!')
     b = a.arg
     print("DEFAULT SIDT ADDRESS %s!!"%a)
     e.append(ExprAff(ExprMem(b, 32), ExprInt32(0xe40007ff)))
-    e.append(ExprAff(ExprMem(ExprOp("+", b, ExprInt32(4)), 16), ExprInt32(0x8245)))
+    e.append(ExprAff(ExprMem(ExprOp("+", b, ExprInt32(4)), 16), ExprInt16(0x8245)))
     return e
 
 
@@ -2890,7 +2905,8 @@ def l_str(info, a):
 
 def rdrand(info, a):
     e = []
-    e.append(ExprAff(a, ExprOp('random')))
+    # (uninterpreted; the operand gives the operator its width)
+    e.append(ExprAff(a, ExprOp('random', a)))
     return e
 
 def MMXkill(info, a, b, c=None):
